@@ -61,10 +61,16 @@ def run(ctx) -> None:
     s2 = self_name(acq)
     acquires = [n for n in walk_no_nested(acq.node) if isinstance(n, ast.Assign) and any(
         isinstance(t, ast.Subscript) and is_attr_of(t.value, s2, MAP) for t in n.targets)]
-    if not acquires:
+    # accumulating form: self.MAP.setdefault(conn, set()).add(user)  /  self.MAP[conn].add(user)
+    acc_acquires = [c for c in walk_no_nested(acq.node) if isinstance(c, ast.Call) and call_attr(c) in ("add", "append", "update")
+                    and isinstance(c.func, ast.Attribute) and (
+                        (isinstance(c.func.value, ast.Call) and call_attr(c.func.value) == "setdefault"
+                         and is_attr_of(c.func.value.func.value, s2, MAP))
+                        or (isinstance(c.func.value, ast.Subscript) and is_attr_of(c.func.value.value, s2, MAP)))]
+    if not acquires and not acc_acquires:
         raise AnchorError("acquire site self.dead_man_switch_user_ids[...] = ... not found in user_subscribed_pubsub")
 
-    _r37f_g(ctx, acq, s2, acquires)
+    _r37f_g(ctx, acq, s2, acquires, acc_acquires)
 
     # ---- R37a
     kills = [n for n in g.nodes if kill_of_container_key(n, is_map, is_sub)]
@@ -119,7 +125,7 @@ def run(ctx) -> None:
     _r37c_and_d(ctx, prog, f, acq, g)
 
 
-def _r37f_g(ctx, acq, s2, acquires):
+def _r37f_g(ctx, acq, s2, acquires, acc_acquires):
     ctx.rule("R37f", "the recorded user id is the whole topic remainder after 'dead_man_switch/'")
     ctx.rule("R37g", "the acquire site keeps every user of a connection")
     defs = local_single_defs(acq)
@@ -163,12 +169,22 @@ def _r37f_g(ctx, acq, s2, acquires):
                               "topic[len(prefix):], removeprefix, split(sep, 1)[1], partition(sep)[2])")
         ctx.ok("R37f", inst, {"rule": "R37f", "extraction": [norm(w) for w in whole]})
     # ---- R37g
+    for a in acc_acquires:
+        ctx.ok("R37g", f"acquire: {norm(a)[:90]}")
     for a in acquires:
         inst = f"acquire: {norm(a)[:90]}"
         v = a.value
-        coll = isinstance(v, (ast.Set, ast.List, ast.SetComp, ast.ListComp, ast.BinOp)) or (
-            isinstance(v, ast.Call) and isinstance(v.func, ast.Name) and v.func.id in ("set", "list", "frozenset", "tuple"))
-        if coll:
+        # an assignment keeps the users already recorded only if it reads the old entry, or creates the entry under a
+        # `conn not in map` test (the users are then added to it)
+        reads_old = any(isinstance(x, ast.Attribute) and x.attr == MAP for x in ast.walk(v))
+        ga = cfg_of(acq)
+        creates = False
+        for n in ga.nodes_for(a):
+            for t, pol in ga.conditions_at(n):
+                if isinstance(t, ast.Compare) and len(t.ops) == 1 and isinstance(t.comparators[0], ast.Attribute) \
+                        and t.comparators[0].attr == MAP and ((isinstance(t.ops[0], ast.NotIn) and pol) or (isinstance(t.ops[0], ast.In) and not pol)):
+                    creates = True
+        if reads_old or (creates and acc_acquires):
             ctx.ok("R37g", inst)
         else:
             ctx.fail("R37g", acq, a, inst, "the connection's entry is overwritten with a single user id: a connection that "
@@ -201,13 +217,17 @@ def _r37c_and_d(ctx, prog, f, acq, g):
         ctx.fail("R37c", f, f.node, "removal loop over engine map", "no loop removes the user from every engine's active_users")
     else:
         loop = loops[0]
-        # paths to exit that avoid the loop must go through the 'has other connection' true edge or an unknown-subscriber guard
-        test_nodes = [n for n in g.nodes if n.kind == "test"]
+        # the removal loop may sit inside a loop over the users of the closed connection (the value popped from the map)
+        s0 = self_name(f)
+        popped = {t.id for n in g.nodes if n.kind == "stmt" and isinstance(n.ast, ast.Assign) for t in n.ast.targets
+                  if isinstance(t, ast.Name) and isinstance(n.ast.value, ast.Call) and call_attr(n.ast.value) == "pop"
+                  and is_attr_of(n.ast.value.func.value, s0, MAP)}
+        outers = [n for n in g.nodes if n.kind == "for" and n.id != loop.id and isinstance(n.ast.iter, ast.Name)
+                  and n.ast.iter.id in popped and any(x is loop.ast for x in ast.walk(n.ast))]
+        top = outers[0] if outers else loop
 
         def exempt(n) -> bool:
-            if n.id == loop.id:
-                return True
-            return False
+            return n.id == top.id
         # block the loop; then every remaining exit path must pass a Return that is edge-dominated by some test
         p = g.path_to_exit_avoiding(None, exempt)
         bad = None
@@ -216,8 +236,19 @@ def _r37c_and_d(ctx, prog, f, acq, g):
             rets = [x for x in p if x.kind == "stmt" and isinstance(x.ast, ast.Return)]
             if not rets or not g.conditions_at(rets[0]):
                 bad = p
+        if bad is None and outers:
+            # inside the per-user loop: every way round that skips the removal loop is a conditional continue/return
+            # (the 'user has another connection' outcome)
+            q = g.search([(top.id, "loop")], lambda n: n.id in (top.id, g.exit.id), blocked=lambda n: n.id == loop.id, follow_exc=False)
+            if q is not None:
+                jumps = [x for x in q if x.kind == "stmt" and isinstance(x.ast, (ast.Continue, ast.Return, ast.Break))]
+                inner_conds = [t for x in jumps for t, pol in g.conditions_at(x) if top.ast.lineno < getattr(t, "lineno", 0) <= top.ast.end_lineno]
+                # only `continue` goes on with the connection's next user; return/break would leave the remaining users listed
+                if not jumps or not inner_conds or any(not isinstance(x.ast, ast.Continue) for x in jumps):
+                    bad = q
         if bad is not None:
-            ctx.fail("R37c", f, loop.ast, "removal loop over engine map", "an unconditional path skips the removal loop", bad)
+            ctx.fail("R37c", f, loop.ast, "removal loop over engine map", "a path skips the removal loop without the 'user has another "
+                     "connection' outcome (or leaves the per-user loop early, so the connection's remaining users stay listed)", bad)
         else:
             ctx.ok("R37c", "removal loop over engine map", {"rule": "R37c", "loop": loop.text()})
 
